@@ -142,15 +142,13 @@ def _run_case(ctx, case, rng):
             sig = ("C14", case["base"], tuple(sorted(sp.items())), name)
             try:
                 r = fn()
-                got = obs.cells(r)
-            except obs.ObservationFailed:
-                raise
             except Exception as ex:  # noqa
                 ctx.judge(False, case, sig, "C14:apply", obs.show(want), repr(ex), name,
                           nontrivial=bool(sp))
                 continue
-            ok = got == want
-            ctx.judge(ok, case, sig, "C14:apply", obs.show(want), obs.show(got), name,
+            problems, got = obs.result_problems(r, want)
+            ctx.judge(not problems, case, sig, "C14:apply", obs.show(want),
+                      obs.show(got) if got is not None else None, [name] + problems,
                       nontrivial=bool(sp) and bool(B))
             results.append((name, r))
         for (n1, r1), (n2, r2) in zip(results, results[1:]):
@@ -168,14 +166,12 @@ def _run_case(ctx, case, rng):
                  frozenset(s for s in st if s not in names)) for ch, fg, bg, st in B]
         try:
             r = base.new_with_atts_removed(*names)
-            got = obs.cells(r)
-        except obs.ObservationFailed:
-            raise
         except Exception as ex:  # noqa
             ctx.judge(False, case, mech="C14:remove", expected=obs.show(want), got=repr(ex))
             return
-        ctx.judge(got == want, case, mech="C14:remove", expected=obs.show(want), got=obs.show(got),
-                  nontrivial=bool(names))
+        problems, got = obs.result_problems(r, want)
+        ctx.judge(not problems, case, mech="C14:remove", expected=obs.show(want),
+                  got=obs.show(got) if got is not None else None, detail=problems, nontrivial=bool(names))
         if obs.cells(base) != B:
             ctx.judge(False, case, mech="C14:operand-changed")
     elif kind == "newstr":
@@ -186,14 +182,15 @@ def _run_case(ctx, case, rng):
         fmt = obs.spec_cells([["x", spec[0][1]]])[0][1:]     # all runs share these attributes
         want = [(ch,) + fmt for ch in new]
         try:
-            got = obs.cells(f.copy_with_new_str(new))
-        except obs.ObservationFailed:
-            raise
+            r = f.copy_with_new_str(new)
         except Exception as ex:  # noqa
             ctx.judge(False, case, mech="C14:copy_with_new_str", expected=obs.show(want), got=repr(ex))
             return
-        ctx.judge(got == want, case, mech="C14:copy_with_new_str", expected=obs.show(want),
-                  got=obs.show(got))
+        problems, got = obs.result_problems(r, want)
+        ctx.judge(not problems, case, mech="C14:copy_with_new_str", expected=obs.show(want),
+                  got=obs.show(got) if got is not None else None, detail=problems)
+        if obs.cells(f) != F:
+            ctx.judge(False, case, mech="C14:operand-changed")
     elif kind == "shared":
         spec = case["fmt"]
         f = obs.build(spec)
